@@ -182,7 +182,11 @@ let handle (line : string) : string =
        | _ -> "UNSUPPORTED")
   | "PP" ->
       (match number_of_sexp (parse_sexp rest) with
-       | NInt z -> "(I " ^ z_str (primepi_int z) ^ ")"
+       | NInt z ->
+           (match primepi_int z with
+            | PPOk k -> "(I " ^ z_str k ^ ")"
+            | PPTooLarge -> "EXN:1"
+            | PPOverflow -> "EXN:6")
        | _ -> "UNSUPPORTED")
   | "PR" ->
       (match number_of_sexp (parse_sexp rest) with
